@@ -64,13 +64,90 @@ def gen_values(rng, n, style):
     return [rng.randrange(0, U64) for _ in range(n)]
 
 
+# ---- compound / run-time factors (the general theorems Props/C16_general.v quantify over arbitrary factor
+# expressions; these programs tie that reading to the emitted code) ----
+FACTOR_KINDS = ["arg", "sum", "rsum", "prod", "minus", "div", "fee", "if", "len", "const", "nested", "load"]
+FACTOR_CONSTS = [0, 1, 2, 3, 7, 1000, (1 << 32) + 1, 1 << 63, U64 - 1]
+
+
+def make_factor(pt, kind, i, c, svars=None):
+    """Factor expression number i (reads application argument i) of the given kind with constant c."""
+    a = pt.Btoi(pt.Txn.application_args[i])
+    if kind == "arg":
+        return a
+    if kind == "sum":
+        return a + pt.Int(c)
+    if kind == "rsum":
+        return pt.Int(c) + a
+    if kind == "prod":
+        return a * pt.Int(c)
+    if kind == "minus":
+        return a - pt.Int(c)
+    if kind == "div":
+        return a / pt.Int(c)
+    if kind == "fee":
+        return pt.Txn.fee()
+    if kind == "if":
+        return pt.If(a > pt.Int(c), a, pt.Int(c))
+    if kind == "len":
+        return pt.Len(pt.Txn.application_args[i])
+    if kind == "const":
+        return pt.Int(c)
+    if kind == "nested":
+        return pt.WideRatio([a, pt.Int(c)], [pt.Int(3)])
+    if kind == "load":
+        return svars[i].load()
+    raise ValueError(kind)
+
+
+def factor_value(kind, a, c, fee):
+    """What the factor evaluates to in exact integers; None = the factor itself must fail."""
+    if kind in ("arg", "load"):
+        return a
+    if kind in ("sum", "rsum"):
+        return a + c if a + c < U64 else None
+    if kind == "prod":
+        return a * c if a * c < U64 else None
+    if kind == "minus":
+        return a - c if a >= c else None
+    if kind == "div":
+        return a // c if c != 0 else None
+    if kind == "fee":
+        return fee
+    if kind == "if":
+        return a if a > c else c
+    if kind == "len":
+        return 8
+    if kind == "const":
+        return c
+    if kind == "nested":
+        return oracle([a, c], [3])
+    raise ValueError(kind)
+
+
+def compound_program(pt, kinds_n, kinds_d, consts):
+    """Log(Itob(WideRatio(...))) with the given factor kinds; `load` factors are stored first."""
+    n = len(kinds_n) + len(kinds_d)
+    kinds = list(kinds_n) + list(kinds_d)
+    svars = {i: pt.ScratchVar(pt.TealType.uint64, 10 + i) for i in range(n) if kinds[i] == "load"}
+    pre = [svars[i].store(pt.Btoi(pt.Txn.application_args[i])) for i in sorted(svars)]
+    fs = [make_factor(pt, kinds[i], i, consts[i], svars) for i in range(n)]
+    w = pt.WideRatio(fs[:len(kinds_n)], fs[len(kinds_n):])
+    return pt.Seq(*(pre + [pt.Log(pt.Itob(w)), pt.Approve()]))
+
+
 def main(argv):
     args = parse_args(argv)
     ck = Check("C16", args.tier)
     thorough = args.tier == "thorough"
     import pyteal as pt
 
-    ck.run_proofs("Props/C16.v", ["Proofs/WideRatioProof.v"])
+    # proof obligations: the constant-factor theorem (Props/C16.v) and the arbitrary-factor theorems
+    # (Props/C16_general.v: source semantics + lowered graph, composed with lower_correct)
+    ck.run_proofs("Props/C16.v",
+                  ["Proofs/WideRatioProof.v", "Proofs/WideRatioGeneralOps.v", "Proofs/WideRatioGeneral.v",
+                   "Proofs/WideRatioGeneralGraph.v", "Proofs/WideRatioGeneralExamples.v"],
+                  extra_props=["Props/C16_general.v"])
     model = Model()
 
     # ---------------- correspondence 1: op-list text equality, constructor acceptance ----------
@@ -183,26 +260,115 @@ def main(argv):
     ck.coverage["input_distribution"] = hist
     ck.coverage["shapes"] = len(shapes)
 
+    # ---------------- correspondence 3: compound / run-time factors, versions 5..10 -----------
+    # Factors are arbitrary expressions (arithmetic on application arguments, Txn.fee, If, Len, a nested
+    # WideRatio, scratch loads); the compiled program runs on the extracted AVM and is compared with exact
+    # integer arithmetic: every factor's own value (or its failure), then the oracle on the values.
+    chist = {"ok": 0, "must_fail": 0, "factor_fails": 0}
+    kind_hist = {}
+    per_prog = 20 if thorough else 5
+    fee = 1000
+    for si, (nn, nd) in enumerate(shapes):
+        if nn + nd > 14:
+            continue
+        vs = list(versions) if thorough else [5 + (si % 6), 5 + ((si + 3) % 6)]
+        for v in vs:
+            kinds = [ck.rng.choice(FACTOR_KINDS) for _ in range(nn + nd)]
+            # a compound factor in third-or-later position whenever there is one (multi-block code there)
+            if nn >= 3:
+                kinds[ck.rng.randrange(2, nn)] = ck.rng.choice(["sum", "rsum", "prod", "if", "nested", "minus"])
+            if nd >= 3:
+                kinds[nn + ck.rng.randrange(2, nd)] = ck.rng.choice(["sum", "rsum", "prod", "if", "nested", "div"])
+            if not any(k in ("arg", "sum", "rsum", "prod", "minus", "div", "if", "nested", "load") for k in kinds):
+                kinds[0] = "arg"
+            consts = [ck.rng.choice(FACTOR_CONSTS[:6]) if ck.rng.random() < 0.7 else ck.rng.choice(FACTOR_CONSTS) for _ in kinds]
+            for i, kd in enumerate(kinds):
+                if kd in ("prod", "div", "nested") and consts[i] == 0 and ck.rng.random() < 0.8:
+                    consts[i] = ck.rng.choice([1, 2, 3, 7])
+                kind_hist[kd] = kind_hist.get(kd, 0) + 1
+            r = call_real(lambda: pt.compileTeal(compound_program(pt, kinds[:nn], kinds[nn:], consts), pt.Mode.Application, version=v))
+            if r[0] != "ok":
+                sem_fail.append({"kind": "compile-error", "version": v, "ns": kinds[:nn], "ds": kinds[nn:], "consts": consts,
+                                 "expected": "TEAL", "observed_verdict": r[1], "observed_logs": None})
+                continue
+            teal = r[1]
+            for k in range(per_prog):
+                style = ["small", "boundary", "near128", "random", "small"][k % 5]
+                args_ = gen_values(ck.rng, nn + nd, style)
+                if k % 2 == 0:
+                    # keep derived factors alive: arguments above the constant for `minus`, small for `sum`/`prod`
+                    for i, kd in enumerate(kinds):
+                        if kd == "minus" and args_[i] < consts[i]:
+                            args_[i] = min(U64 - 1, consts[i] + ck.rng.randrange(0, 1000))
+                        if kd in ("sum", "rsum", "prod") and factor_value(kd, args_[i], consts[i], fee) is None:
+                            args_[i] = ck.rng.randrange(0, 1 << 20)
+                vals = [factor_value(kinds[i], args_[i], consts[i], fee) for i in range(nn + nd)]
+                if any(x is None for x in vals):
+                    exp = None
+                    chist["factor_fails"] += 1
+                else:
+                    exp = oracle(vals[:nn], vals[nn:])
+                    chist["ok" if exp is not None else "must_fail"] += 1
+                argv_ = [x.to_bytes(8, "big") for x in args_]
+                ctx = (S("ctx"), (S("mode"), S("app")),
+                       (S("group"), ((S("fields"), ("Fee", fee), ("NumAppArgs", len(argv_))), (S("arrays"), ("ApplicationArgs", argv_)))))
+                res = model.ask((S("run"), ctx, teal))
+                ck.count(("run-compound", nn, nd, v, tuple(kinds), tuple(consts), tuple(args_)))
+                verdict = res[1] if res and res[0] == S("ran") else res
+                logs = [e[1] for e in res[3][1:] if e[0] == S("log")] if res and res[0] == S("ran") else None
+                if exp is not None:
+                    good = verdict == S("approve") and logs == [exp.to_bytes(8, "big")]
+                else:
+                    good = verdict == S("fail")
+                if not good:
+                    sem_fail.append({"kind": "semantic-compound", "version": v, "ns": vals[:nn], "ds": vals[nn:],
+                                     "factor_kinds": kinds, "factor_consts": consts, "app_args": args_, "fee": fee,
+                                     "expected": ("fail" if exp is None else exp), "observed_verdict": repr(verdict),
+                                     "observed_logs": [l.hex() for l in logs] if logs else logs, "teal": teal})
+                if k == 0 and si in (7, 20):
+                    ck.sample({"factor_kinds": kinds, "consts": consts, "app_args": args_, "version": v,
+                               "expected": ("fail" if exp is None else exp), "verdict": repr(verdict)})
+    ck.coverage["compound_input_distribution"] = chist
+    ck.coverage["compound_factor_kinds"] = kind_hist
+
     # ---------------- verdict ----------------
-    for f in sem_fail[:5]:
+    # report at most 6 failing inputs: silently wrong numbers first (approve with a wrong log), and both
+    # families (argument factors / compound factors) represented
+    def _rank(f):
+        wrong_number = f.get("observed_verdict") == repr(S("approve"))
+        return (0 if wrong_number else 1)
+    plain = sorted([f for f in sem_fail if f["kind"] != "semantic-compound"], key=_rank)
+    comp = sorted([f for f in sem_fail if f["kind"] == "semantic-compound"], key=_rank)
+    for f in plain[:3] + comp[:3]:
+        if f["kind"] == "semantic-compound":
+            ck.violation("compiled WideRatio with factor expressions %s (constants %s) on application arguments %s (factor values %s/%s) at v%d gave %s %s, expected %s"
+                         % (f["factor_kinds"], f["factor_consts"], f["app_args"], f["ns"], f["ds"], f["version"], f["observed_verdict"], f["observed_logs"], f["expected"]), f)
+            continue
         ck.violation("compiled WideRatio %s/%s at v%d gave %s %s, expected %s" % (f["ns"], f["ds"], f["version"], f["observed_verdict"], f["observed_logs"], f["expected"]), f)
     if text_mismatch and not sem_fail:
         ck.violation("correspondence broken: WideRatio op list differs from Comp/WideRatio.v (theorem C16_wide_ratio_exact_or_fails no longer transfers); AVM search over %d inputs found no wrong result" % (hist["ok"] + hist["must_fail"]),
                      {"kind": "correspondence", "broken": "text equality WideRatio.__teal__ vs wide_ratio_ops", "first": text_mismatch[0]}, no_failing_input=True)
     if not ck.proof_ok and not sem_fail:
-        ck.violation("proof obligation broken: Props/C16.v or Proofs/WideRatioProof.v no longer checks",
-                     {"kind": "proof", "broken": "C16_wide_ratio_exact_or_fails", "log": ck.proof_log[-1500:]}, no_failing_input=True)
+        ck.violation("proof obligation broken: Props/C16.v, Props/C16_general.v or their proof files no longer check",
+                     {"kind": "proof", "broken": "C16_wide_ratio_exact_or_fails / C16_wide_ratio_general / C16_wide_ratio_never_wraps",
+                      "log": ck.proof_log[-1500:]}, no_failing_input=True)
     ck.coverage["disagreements_checked"] = len(text_mismatch) + len(sem_fail)
     model.close()
     return ck.finish(
         level="proof",
         rule="text: every (numerators, denominators) count pair 0..%d x versions 5..10 with random constants, plus composite factors; "
              "semantic: real compileTeal output run on the extracted AVM for shapes 1..6 x 1..6 with boundary/near-2^128/small/random uint64 factors taken from application arguments; "
-             "a case is distinct by (shape, version, factor values); non-trivial = the constructor accepts the shape" % maxn,
+             "compound: the same with factor expressions drawn from {btoi(arg), arg+c, c+arg, arg*c, arg-c, arg/c, Txn.fee, If(arg>c,arg,c), Len(arg), Int c, nested WideRatio, scratch load} "
+             "(a compound factor forced into every third-or-later position), versions 5..10, each factor's value/failure computed in exact integers; "
+             "a case is distinct by (shape, version, factor kinds/constants, factor values); non-trivial = the constructor accepts the shape" % maxn,
         trusted_base=[
             "AVM semantics of int/mulw/*/+/uncover/dig/cover/swap/divmodw/pop/!/assert/btoi/itob/log/txna in coq/AVM (hand-written spec)",
             "Theorem is about Comp/WideRatio.v (hand model of widemath.py), tied to the code by op-list text equality on every run",
-            "Theorem quantifies over constant factors; composite factor code is covered by the correspondence only",
+            "C16_wide_ratio_exact_or_fails quantifies over constant factors on the op list; C16_wide_ratio_general / _never_wraps / _general_graph "
+            "quantify over arbitrary factor expressions under Src/Denote.v and the lowered block graph (Comp/Lower.v), which are tied to pyteal by "
+            "the C01 correspondence and here by running compiled compound-factor programs on the AVM",
+            "C16_wide_ratio_never_wraps assumes each factor is uint64-valued (leaves exactly one uint64 on the stack it started from when it "
+            "terminates normally): WideRatio.__init__ performs no require_type on its factors, so this is a hypothesis, not checked by PyTeal",
             "Extraction: ExtrOcamlBasic + ExtrOcamlNativeString, driver.ml (read-line loop)",
         ])
 
